@@ -153,7 +153,8 @@ class CUnit:
         ptypes = [(self.rename(nm), ty) for nm, ty in ex.param_types()]
         for nm, ty in ptypes:
             if ty.is_int():
-                t = z3.Int(nm)
+                # a parameter the unit fixes to a constant (one unit per value of a small enumeration argument)
+                t = z3.IntVal(self.consts[nm]) if nm in getattr(self, "consts", {}) else z3.Int(nm)
                 st.path.append(z3.And(t >= ty.min, t <= ty.max))
                 args.append(CV(ty, t))
                 setattr(e, nm, t)
@@ -169,6 +170,15 @@ class CUnit:
                            init=z3.Store(z3.K(z3.IntSort(), z3.IntVal(0)), 0, t))
                 args.append(Ptr(ty, nm, z3.IntVal(0)))
                 setattr(e, nm, t)
+            elif ty.is_ptr() and nm in self.arrays:
+                # pointer to the first element of a caller-provided array: (element ctype, length builder(e) | int)
+                ety = parse_type(self.arrays[nm][0])
+                ln = self.arrays[nm][1]
+                ln = z3.IntVal(ln) if isinstance(ln, int) else ln(e)
+                ex.new_obj(st, nm, ety, ln)
+                k = z3.Int("k!" + nm)
+                st.path.append(z3.ForAll([k], z3.And(z3.Select(st.mem[nm], k) >= ety.min, z3.Select(st.mem[nm], k) <= ety.max)))
+                args.append(Ptr(ty, nm, z3.IntVal(0)))
             elif ty.is_ptr() and nm in self.pyobjs:
                 # PyObject* parameter: an object identity of the abstract object model (dv/pyobj.py)
                 t = z3.Int(nm)
@@ -226,8 +236,12 @@ class CUnit:
             res.cover_failures.append("no return path")
         feasible = 0
         for s, v in rets:
+            # vacuity guard: one feasible return path is what is needed; with many paths (merge off, unrolled loops)
+            # checking every one costs seconds each and adds nothing
             if check_sat(s.path) == z3.sat:
                 feasible += 1
+                if len(rets) > 8:
+                    break
         res.covers += feasible
         if feasible == 0:
             res.cover_failures.append("no feasible return path")
